@@ -30,6 +30,17 @@ structure ConnSt where
   eofOwed : Nat := 0           -- pauses before the end of the stream becomes visible (terminal closed)
   deriving Repr
 
+/-- one entry of the terminal's per-connection log: what the harness prints as `open@t`, `refuse@t`, `stall@t`,
+`rx:HEX` (a packet the client sent), `tclose@t` (the terminal hung up), `close@t` (the client hung up). -/
+inductive LogE where
+  | opened (t : Nat)
+  | refuse (t : Nat)
+  | stall (t : Nat)
+  | rx (p : Bytes)
+  | tclose (t : Nat)
+  | close (t : Nat)
+  deriving DecidableEq, Repr
+
 structure World where
   now : Nat := 0
   queues : List (String × List (List Bytes)) := []
@@ -37,7 +48,7 @@ structure World where
   connects : List String := []
   serial : Bytes := []
   tid : Bytes := []
-  logs : List (List String) := []
+  logs : List (List LogE) := []
   conn : Option ConnSt := none
   /-- virtual seconds the terminal pauses before every item it sends (`gap=N`: a slow but talking terminal) -/
   gap : Nat := 0
@@ -46,7 +57,15 @@ def hexDigitCh (n : Nat) : Char := Char.ofNat (if n < 10 then 48 + n else 87 + n
 def hexStr (b : Bytes) : String :=
   if b.isEmpty then "-" else String.ofList (b.flatMap fun x => [hexDigitCh (x.toNat / 16), hexDigitCh (x.toNat % 16)])
 
-def World.log (w : World) (k : Nat) (s : String) : World :=
+def LogE.show : LogE → String
+  | .opened t => s!"open@{t}"
+  | .refuse t => s!"refuse@{t}"
+  | .stall t => s!"stall@{t}"
+  | .rx p => "rx:" ++ hexStr p
+  | .tclose t => s!"tclose@{t}"
+  | .close t => s!"close@{t}"
+
+def World.log (w : World) (k : Nat) (s : LogE) : World :=
   { w with logs := w.logs.modify k (· ++ [s]) }
 
 def kindOf (p : Bytes) : String :=
@@ -108,12 +127,12 @@ def releaseItems : Nat → World → ConnSt → World × ConnSt
         | some (.garbage g) => releaseItems n w (c.put g)
         | some .stall => (w, { c with stalled := true, pending := [] })
         | some .close =>
-          (w.log c.id s!"tclose@{w.now + w.gap * (c.marks.sum + c.carry + 1)}",
+          (w.log c.id (.tclose (w.now + w.gap * (c.marks.sum + c.carry + 1))),
            { c with tclosed := true, pending := [], eofOwed := c.carry + 1, carry := 0 })
 
 /-- the terminal receives one APDU from the client. -/
 def termRx (w : World) (c : ConnSt) (p : Bytes) : World × ConnSt :=
-  let w := w.log c.id ("rx:" ++ hexStr p)
+  let w := w.log c.id (.rx p)
   match p with
   | 0x80 :: 0x00 :: _ => releaseItems 1 w c
   | _ =>
@@ -151,7 +170,7 @@ def connWrite (w : World) (c : ConnSt) (p : Bytes) : Option (World × ConnSt) :=
 
 /-- the client drops the connection (`src.inner = None`, or the socket of a failed handshake). -/
 def dropConn (w : World) (c : ConnSt) : World :=
-  let w := if c.tclosed then w else w.log c.id s!"close@{w.now}"
+  let w := if c.tclosed then w else w.log c.id (.close w.now)
   { w with conn := none }
 
 /-! ### one `Sequence` stream, item by item -/
@@ -301,10 +320,10 @@ def connect (cfg : Cfg) (w : World) : World × Bool :=
   let t0 := w.now
   let k := w.logs.length
   let dir := w.connects.getD k "accept"
-  if dir = "refuse" then ({ w with logs := w.logs ++ [[s!"refuse@{t0}"]] }, false)
-  else if dir = "stall" then ({ w with logs := w.logs ++ [[s!"stall@{t0}"]], now := t0 + TIMEOUT }, false)
+  if dir = "refuse" then ({ w with logs := w.logs ++ [[.refuse t0]] }, false)
+  else if dir = "stall" then ({ w with logs := w.logs ++ [[.stall t0]], now := t0 + TIMEOUT }, false)
   else
-    let w := { w with logs := w.logs ++ [[s!"open@{t0}"]] }
+    let w := { w with logs := w.logs ++ [[.opened t0]] }
     let c : ConnSt := { id := k }
     match onceExchange (seqDesc "sequences::Registration" (registrationCmd cfg)) (t0 + TIMEOUT) w c with
     | (none, w, c) => (dropConn { w with now := t0 + TIMEOUT } c, false)    -- hang: the TIMEOUT guard fires
